@@ -3,7 +3,7 @@
 
    Model: Files/Model.v (run_events: histories of Configurator operations and restarts over a disk),
    declarative side: Files/Spec.v (spec_events: what is being served; disk_matches / hosts_exact).
-   [cl] is the model variant: false = current code, true = with the proposed fix fixes/F30.diff. *)
+   [cl] is the model variant: false = current code, true = with the proposed fix fixes/F33.diff. *)
 From Coq Require Import List ZArith String Ascii Bool.
 From NIC Require Import Base.SMap Files.Model Files.Spec Names.FileNames Files.Proofs.
 Import ListNotations.
@@ -124,7 +124,7 @@ Print Assumptions C10_restart_refuted.
 
 (* ---------- the passthrough map ---------- *)
 
-(* FULL STATEMENT, proved for the code with fixes/F30.diff (cl = true): after every history of
+(* FULL STATEMENT, proved for the code with fixes/F33.diff (cl = true): after every history of
    operations and restarts (deletions while down included) tls-passthrough-hosts.conf lists exactly
    the served passthrough TransportServers. *)
 Theorem C10_passthrough_map_exact :
@@ -146,7 +146,7 @@ Theorem C10_passthrough_map_exact_partial :
 Proof. exact passthrough_map_exact. Qed.
 Print Assumptions C10_passthrough_map_exact_partial.
 
-(* REFUTED for the current code (F30). *)
+(* REFUTED for the current code (F33). *)
 Theorem C10_passthrough_stale_refuted :
   exists evs h so,
     (forall q, In q (all_targets evs) -> legal q) /\ hosts_distinct (spec_events evs []) /\
